@@ -32,7 +32,7 @@ EXPLANATION = (
 )
 
 MANIFEST = {
-    "technique": "static analysis: alias/effect analysis across the .pyx front-end, axis (unit) typing and polarity of bounds tuples on canonical terms, integer lower bounds of sample counts, pruning-condition extraction",
+    "technique": "static analysis: alias/effect analysis across the .pyx front-end, truth-table implication for pruning conditions, axis (unit) typing and polarity of bounds tuples on canonical terms, order of chunk bounds from index formulas, integer lower bounds of sample counts, union-filter meaning and late-bound closure detection",
     "text": "Decides necessary structural conditions of 'filters never drop a tile holding data': purity, pruning rule, mask construction, bound order/axis provenance end to end, end-point sampling of the bound refinement. The geometric acceptance guarantee is not decided.",
     "note": "Trusted: compiled bbox test as written in the .pyx; numpy linspace/asarray semantics; astropy WCS. Not decided: spherical geometry of the acceptance test over floats.",
 }
@@ -43,7 +43,7 @@ def run(run):
     run.assumptions += ["np.asarray of a tuple of tuples allocates; of an ndarray returns the same object",
                         "np.linspace(a, b, n) includes both a and b iff n >= 2"]
     run.undecided_clauses += ["every tile with a pixel centre inside the box/footprint/chunk is accepted (spherical geometry over floats)"]
-    for r, n in (("C07.R1", 2), ("C07.R2", 2), ("C07.R3", 2), ("C07.R4", 5), ("C07.R5", 6), ("C07.R6", 6)):
+    for r, n in (("C07.R1", 2), ("C07.R2", 2), ("C07.R3", 2), ("C07.R4", 5), ("C07.R5", 6), ("C07.R6", 6), ("C07.R7", 1)):
         run.floor(r, n)
     _r1_purity(run)
     _r2_pruning(run)
